@@ -97,7 +97,7 @@ class Tlc:
         return [ln for ln in self.out.splitlines() if "Error:" in ln or "error:" in ln.lower() and "No error" not in ln]
 
 
-def tlc(module, cfg, work, env=None, workers=4, coverage=False, timeout=3600, simulate=None, xmx="4g", depth_first=False, seed=None):
+def tlc(module, cfg, work, env=None, workers=4, coverage=False, timeout=3600, simulate=None, xmx="4g", depth_first=False, seed=None, depth=None):
     os.makedirs(work, exist_ok=True)
     meta = os.path.join(work, "meta-%s-%s" % (os.path.basename(cfg), os.getpid()))
     jopts = "-Xss1g -Xmx%s" % xmx
@@ -113,6 +113,8 @@ def tlc(module, cfg, work, env=None, workers=4, coverage=False, timeout=3600, si
         cmd += ["-simulate", simulate]
     if seed is not None:
         cmd += ["-seed", str(seed)]
+    if depth is not None:
+        cmd += ["-depth", str(depth)]
     cmd += ["-config", cfg, module]
     p = sh(["timeout", str(timeout)] + cmd, cwd=SPEC, env=e, timeout=timeout + 60, check=False)
     shutil.rmtree(meta, ignore_errors=True)
